@@ -47,7 +47,7 @@ func everyReturnPasses(from []core.At, site func(ssa.Instruction) bool) ssa.Inst
 
 func c17(r *core.Run) {
 	p := r.P
-	r.Explanation = "Decides on every path: Cache.data is read and written, and the LRU is operated, only with Cache.lock held; the eviction callback is reachable only from keyLru operations (which run under that lock) and keyLru's fields are touched only by keyLru's methods; a hit touches the LRU, a set stores the value and touches the LRU; the LRU moves a known key to the front, pushes a new key to the front and evicts exactly when Len() > limit, taking Back(); Del and eviction remove the key from data, LRU and timer; Take runs fetch only inside barrier.Do(key, …) after a second lookup missed, caches only when fetch returned no error and returns fetch's error otherwise; expiry = Unstable(0.05).AroundDuration(expire) (factor in [0.95, 1.05]) on a one-second wheel whose callback deletes the key; the timer is moved iff the key was present before the store, else set."
+	r.Explanation = "Decides on every path: Cache.data is read and written, and the LRU is operated, only with Cache.lock held; the eviction callback is reachable only from keyLru operations (which run under that lock) and keyLru's fields are touched only by keyLru's methods; a hit touches the LRU, a set stores the value and touches the LRU; the LRU moves a known key to the front, pushes a new key to the front and evicts exactly when Len() > limit, taking Back(); Del and eviction remove the key from data, LRU and timer; Take runs fetch only inside barrier.Do(key, …) after a second lookup missed, caches only when fetch returned no error and returns fetch's error otherwise; no path of Take or of the function values it makes removes an entry from data, the LRU or the timing wheel (directly or through a package function it calls); expiry = Unstable(0.05).AroundDuration(expire) (factor in [0.95, 1.05]) on a one-second wheel whose callback deletes the key; the timer is moved iff the key was present before the store, else set."
 	r.NotDecided = "the size bound, LRU order and freshness over access histories; at-most-once fetch among concurrent callers as a schedule property (relies on syncx.SingleFlight, C18); the expiry tick (inherits C10's not-decided part); ordering between concurrent Set/Del and their timer operations, which run after the lock is released."
 
 	fns := p.PkgFuncs(f10CollPkg)
@@ -897,6 +897,9 @@ func c17(r *core.Run) {
 
 	// ---------------- D5 the wheel's key→timer index behaves as a map (c17_safemap.go) ----------------
 	c17SafeMap(r)
+
+	// ---------------- round 11: Take removes nothing (c17_r11.go) ----------------
+	c17R11(r)
 }
 
 // lookupKeyOf returns the key of the (single) comma-ok lookup in Cache.data of f.
